@@ -112,6 +112,10 @@ def _plan2(tier, seed):
     # graphs that arrive with back edges declared and are restructured afterwards
     out += _pre.plan(tier, seed, 400, 12000)
     out += _opf.plan(tier, seed, 300, 10000)
+    total = 600 if quick else 20000
+    for start in range(0, total, 200 if quick else 2000):
+        out.append({"kind": "refused_stage", "seed": seed, "start": start,
+                    "count": 200 if quick else 2000, "tier": tier})
     return out
 
 
@@ -140,8 +144,61 @@ def _flat_case(gd, acc, payload, chain, be=None):
                 sample=(acc.evaluations % 997 == 0))
 
 
+def _refused_stage_case(i, seed, acc, chain):
+    """A graph with a loop that nothing leaves (`while True:` without break):
+    restructure_loop refuses it (StopIteration) - after it may have wrapped
+    other loops of the same graph.  What it leaves is a graph the library
+    produced: it is written and read back."""
+    from .. import drivers
+    from ..oracles.serial import check_roundtrip
+    from ..workloads import graphs as _g
+
+    rng = _random.Random(f"c15r/{seed}/{i}")
+    g = _g.make_case(rng.choice(["loop", "struct", "rand_small", "rand"]), seed, 800000 + i)
+    if g is None:
+        return
+    g = dict(g)
+    hosts = [k for k, v in g.items() if len(v) == 1]
+    if not hosts:
+        return
+    h = rng.choice(hosts)
+    n = rng.randint(1, 3)
+    zs = [f"z{j}" for j in range(n)]
+    g[h] = g[h] + (zs[0],)
+    for j, z in enumerate(zs):
+        g[z] = (zs[(j + 1) % n],) if n > 1 or True else ()
+    if n == 1:
+        g[zs[0]] = (zs[0],)
+    ctx = _core.set_ctx(_core.Ctx(None))
+    attach.ACTIVE.clear()
+    scfg = drivers.make_scfg(g, rng.choice(["basic", "bytecode"]))
+    refused = None
+    for nm in ("join_returns", "restructure_loop", "restructure_branch"):
+        try:
+            getattr(scfg, nm)()
+        except Exception as e:
+            refused = (nm, type(e).__name__)
+            break
+    acc.counters["refused_stage.graphs"] += 1
+    acc.counters["refused_stage.%s" % ("%s_%s" % refused if refused else "accepted")] += 1
+    ctx.hit("oracle.C15.roundtrip")
+    _run_oracle(ctx, "C15.roundtrip_after_refused_stage", check_roundtrip, scfg, chain)
+    case = {"kind": "refused_stage", "seed": seed, "index": i}
+    acc.add_ctx(ctx, case, nontrivial_hash=_core.graph_hash(g), sample=(acc.evaluations % 199 == 0))
+
+
 def _run2(spec):
     k = spec["kind"]
+    if k == "refused_stage" or (k == "single" and spec["case"].get("kind") == "refused_stage"):
+        attach.install(CHECK.profile)
+        acc = _ShardAcc("C15")
+        chain = 1 if spec.get("tier", "quick") == "quick" else 3
+        if k == "single":
+            _refused_stage_case(spec["case"]["index"], spec["case"]["seed"], acc, chain)
+        else:
+            for i in range(spec["start"], spec["start"] + spec["count"]):
+                _refused_stage_case(i, spec["seed"], acc, chain)
+        return acc.result()
     if k == "opfaults" or (k == "single" and spec["case"].get("kind") == "opfault"):
         return _opf.run_shard(spec, "C15", CHECK.profile, _serial_victim, _serial_oracle, None,
                               payload="bytecode")
